@@ -124,6 +124,20 @@ func c04(c *q.Ctx) {
 		c.MapStoreKeys(fu, "newmap<map[string]bool>", []string{"ledger.(*Ledger).queryBlock(p0,p1,true)#0.Blockid", "ledger.(*Ledger).queryBlock(p0,p2,true)#0.Blockid", "ledger.(*Ledger).queryBlock(p0,phi{*queryBlock(p0,p1,true)#0*}.PreHash,true)#0.Blockid", "ledger.(*Ledger).queryBlock(p0,phi{*queryBlock(p0,p2,true)#0*}.PreHash,true)#0.Blockid"}, "a block is in the visited set as soon as it is in a result list: the fork point is the first block met twice")
 	}
 	saveBlockRows(c)
+	// the whole of a confirmation / truncation - reading the branch tips and the blocks it is going to rewrite included -
+	// runs under the ledger lock: a scan taken before the lock cuts from a leaf that a confirmation in flight has
+	// already extended (the new block survives above the tip with its parent deleted)
+	lla := c.NewLockAnalysis("bcs/ledger/xledger/ledger")
+	for fn, specs := range map[string][]string{
+		led + "(*Ledger).Truncate":     {"Ledger.GetBranchInfo", "Ledger.fetchBlock", "Ledger.removeBlocks", "Ledger.updateBranchInfo", "Batch.Write"},
+		led + "(*Ledger).ConfirmBlock": {"Ledger.fetchBlock", "Ledger.saveBlock", "Ledger.handleFork", "Ledger.updateBranchInfo", "Batch.Write"},
+	} {
+		if f := c.Fn(fn); f != nil {
+			for _, spec := range specs {
+				lla.HeldAtCalls(f, spec, "Ledger.mutex", true, "every read and write of a chain reorganisation happens under the ledger lock")
+			}
+		}
+	}
 	rb := c.Fn(led + "(*Ledger).removeBlocks")
 	if rb != nil {
 		cur := "phi{ledger.(*Ledger).fetchBlock(p0,loop.PreHash)#0|ledger.(*Ledger).fetchBlock(p0,p1)#0}"
